@@ -996,6 +996,199 @@ theorem parseToks_balanced (ts : List Token) (e : Expr) (h : parseToks false ts 
       simpa [Balanced, scan] using this
     · cases h
 
+/-! ### the tokenizer maps each grouping symbol of the text to one grouping token -/
+
+theorem kindOf_br {text : Str} {b : Br} (h : brOfKind (kindOf text) = some b) :
+    ∃ c, text = [c] ∧ brOfChar c = some b := by
+  match text, h with
+  | [], h => simp [kindOf, brOfKind] at h
+  | [c], h =>
+    refine ⟨c, rfl, ?_⟩
+    simp only [kindOf, List.cons.injEq, and_true, and_false, if_false, List.ne_cons_self, reduceCtorEq] at h
+    unfold brOfChar
+    by_cases h1 : c = '(' ; · subst h1; simpa [brOfKind] using h
+    by_cases h2 : c = ')' ; · subst h2; simpa [brOfKind] using h
+    by_cases h3 : c = '[' ; · subst h3; simpa [brOfKind] using h
+    by_cases h4 : c = ']' ; · subst h4; simpa [brOfKind] using h
+    by_cases h5 : c = '{' ; · subst h5; simpa [brOfKind] using h
+    by_cases h6 : c = '}' ; · subst h6; simpa [brOfKind] using h
+    exfalso
+    simp only [h1, h2, h3, h4, h5, h6, if_false] at h
+    repeat' split at h
+    all_goals simp [brOfKind] at h
+  | c1 :: c2 :: rest, h =>
+    exfalso
+    simp [kindOf] at h
+    repeat' split at h
+    all_goals simp [brOfKind] at h
+
+theorem wordChar_no_br {c : Char} (h : isWordChar c = true) : brOfChar c = none := by
+  unfold brOfChar
+  repeat' split
+  all_goals first
+    | rfl
+    | (rename_i hc; subst hc; simp [isWordChar] at h)
+
+/-- the pending run holds word characters or `?` only -/
+def BufOK (buf : Str) : Prop := ∀ c ∈ buf, isWordChar c = true ∨ c = '?'
+
+theorem bufOK_no_br {buf : Str} (h : BufOK buf) {x : Char} (hx : x ∈ buf) : brOfChar x = none := by
+  rcases h x hx with h1 | h1
+  · exact wordChar_no_br h1
+  · subst h1; simp [brOfChar]
+
+theorem flush_brs {buf : Str} (h : BufOK buf) : brs (flush buf) = [] := by
+  unfold flush
+  split
+  · rfl
+  · rename_i c cs
+    cases hb : brOf (mkTok (c :: cs).reverse) with
+    | none => simp only [brs, List.filterMap_cons, hb, List.filterMap_nil]
+    | some b =>
+      exfalso
+      rcases kindOf_br (text := (c :: cs).reverse) (b := b) (by simpa [brOf, mkTok] using hb) with ⟨x, hx, hxb⟩
+      have hmem : x ∈ (c :: cs) := by
+        rw [← List.mem_reverse, hx]; simp
+      rw [bufOK_no_br h hmem] at hxb
+      cases hxb
+
+theorem textBrs_cons (c : Char) (s : Str) :
+    textBrs (c :: s) = (match brOfChar c with | some b => [b] | none => []) ++ textBrs s := by
+  unfold textBrs
+  rw [List.filterMap_cons]
+  split <;> simp_all
+
+
+theorem textBrs_plain {c : Char} (s : Str) (h : brOfChar c = none) : textBrs (c :: s) = textBrs s := by
+  rw [textBrs_cons, h]; rfl
+
+theorem bufOK_nil : BufOK [] := by intro c hc; cases hc
+
+theorem tokGo_brs (cs : Str) : ∀ (skip : Bool) (buf : Str), BufOK buf →
+    brs (tokGo false skip cs buf) = textBrs (if skip then cs.drop 1 else cs) := by
+  induction cs with
+  | nil =>
+    intro skip buf hb
+    have : tokGo false skip [] buf = flush buf := by rw [tokGo.eq_def]
+    rw [this, flush_brs hb]; cases skip <;> rfl
+  | cons c rest ih =>
+    intro skip buf hb
+    cases skip with
+    | true =>
+      have : tokGo false true (c :: rest) buf = tokGo false false rest buf := by rw [tokGo.eq_def]
+      rw [this, ih false buf hb]; rfl
+    | false =>
+      simp only [Bool.false_eq_true, if_false]
+      rw [tokGo.eq_def]; simp only
+      by_cases hw : isWordChar c = true
+      · simp only [hw, if_true]
+        rw [textBrs_plain rest (wordChar_no_br hw)]
+        split
+        · rw [brs_append, flush_brs hb, ih false [c] (by intro x hx; simp at hx; subst hx; exact Or.inl hw)]
+          rfl
+        · rw [ih false (c :: buf) (by
+            intro x hx
+            rcases List.mem_cons.1 hx with rfl | hx
+            · exact Or.inl hw
+            · exact hb x hx)]
+          rfl
+      · simp only [hw, Bool.false_eq_true, if_false]
+        by_cases hq : (c == '?') = true
+        · have hc : c = '?' := by simpa using hq
+          subst hc
+          simp only [beq_self_eq_true, if_true]
+          rw [textBrs_plain rest (by simp [brOfChar])]
+          have hq1 : BufOK ['?'] := by intro x hx; simp at hx; exact Or.inr hx
+          split
+          · rw [ih false _ hq1]; rfl
+          · rw [ih false _ (by
+              intro x hx
+              rcases List.mem_cons.1 hx with rfl | hx
+              · exact Or.inr rfl
+              · exact hb x hx)]
+            rfl
+          · rw [brs_append, flush_brs hb, ih false _ hq1]; rfl
+        · simp only [hq, Bool.false_eq_true, if_false]
+          rw [brs_append, flush_brs hb, List.nil_append]
+          by_cases h1 : (c == '&' || c == '|') = true
+          · simp only [h1, if_true]
+            have hcn : brOfChar c = none := by
+              simp only [Bool.or_eq_true, beq_iff_eq] at h1
+              rcases h1 with rfl | rfl <;> simp [brOfChar]
+            have hk : brOf (mkTok [c, c]) = none := by
+              simp only [Bool.or_eq_true, beq_iff_eq] at h1
+              rcases h1 with rfl | rfl <;> simp [brOf, mkTok, kindOf, brOfKind]
+            rw [textBrs_plain rest hcn]
+            split
+            · rename_i hh
+              have : brs (mkTok [c, c] :: tokGo false true rest []) = brs (tokGo false true rest []) := by
+                simp [brs, hk]
+              rw [this, ih true [] bufOK_nil]
+              simp only [if_true]
+              cases rest with
+              | nil => simp at hh
+              | cons d rest' =>
+                have hh' : d = c := by simpa using hh
+                subst hh'
+                simp only [List.drop_succ_cons, List.drop_zero]
+                rw [textBrs_plain rest' hcn]
+            · rw [ih false [] bufOK_nil]; rfl
+          · simp only [h1, Bool.false_eq_true, if_false]
+            by_cases h2 : (c == '[' || c == ']') = true
+            · simp only [h2, if_true, Bool.false_and, Bool.false_eq_true, if_false]
+              have : brs (mkTok [c] :: tokGo false false rest []) = brs [mkTok [c]] ++ brs (tokGo false false rest []) := by
+                rw [← brs_append]; rfl
+              rw [this, ih false [] bufOK_nil, textBrs_cons]
+              simp only [Bool.or_eq_true, beq_iff_eq] at h2
+              rcases h2 with rfl | rfl <;> simp [brs, brOf, mkTok, kindOf, brOfKind, brOfChar]
+            · simp only [h2, Bool.false_eq_true, if_false]
+              by_cases h3 : (c == '{' || c == '}' || c == ':' || c == '(' || c == ')' || c == '~' || c == ',') = true
+              · simp only [h3, if_true]
+                have : brs (mkTok [c] :: tokGo false false rest []) = brs [mkTok [c]] ++ brs (tokGo false false rest []) := by
+                  rw [← brs_append]; rfl
+                rw [this, ih false [] bufOK_nil, textBrs_cons]
+                simp only [Bool.or_eq_true, beq_iff_eq] at h3
+                rcases h3 with (((((rfl | rfl) | rfl) | rfl) | rfl) | rfl) | rfl <;>
+                  simp [brs, brOf, mkTok, kindOf, brOfKind, brOfChar]
+              · simp only [h3, Bool.false_eq_true, if_false]
+                rw [ih false [] bufOK_nil]
+                simp only [Bool.false_eq_true, if_false]
+                rw [textBrs_plain]
+                simp only [Bool.or_eq_true, beq_iff_eq, not_or] at h2 h3
+                simp [brOfChar, h2.1, h2.2, h3.1.1.1.2, h3.1.1.2, h3.1.1.1.1.1.1, h3.1.1.1.1.1.2]
+
+theorem tokenize_brs (s : Str) : brs (tokenize s) = textBrs s := by
+  unfold tokenize tokenizeWith
+  rw [tokGo_brs s false [] bufOK_nil]; rfl
+
+
+theorem fold_upper : ∀ n, n < 91 → 65 ≤ n → brOfChar (Char.ofNat (n + 32)) = none := by decide
+
+theorem asciiFold_brs (s : Str) : textBrs (asciiFold s) = textBrs s := by
+  unfold textBrs asciiFold
+  rw [List.filterMap_map]
+  congr 1
+  funext c
+  simp only [Function.comp]
+  split
+  · rename_i h
+    simp only [Bool.and_eq_true, decide_eq_true_eq] at h
+    rw [fold_upper c.toNat (by omega) h.1]
+    unfold brOfChar
+    repeat' split
+    all_goals first
+      | rfl
+      | (rename_i hc; subst hc; exact absurd h (by decide))
+  · rfl
+
+instance (bs : List Br) : Decidable (Balanced bs) := by unfold Balanced; infer_instance
+
+instance : DecidableEq (Except ParseErr Expr)
+  | .ok a, .ok b => if h : a = b then isTrue (by rw [h]) else isFalse (by intro h'; cases h'; exact h rfl)
+  | .error a, .error b => if h : a = b then isTrue (by rw [h]) else isFalse (by intro h'; cases h'; exact h rfl)
+  | .ok _, .error _ => isFalse (by intro h; cases h)
+  | .error _, .ok _ => isFalse (by intro h; cases h)
+
 end HedVerif.Query
 
 namespace HedVerif.C15
@@ -1105,5 +1298,92 @@ group's real ancestors - nothing is rebuilt or modified. -/
 theorem pure (q : Expr) (t : Tree) :
     ∀ r ∈ eval q t, (⟨r.group, r.anc⟩ : GroupHit) ∈ allGroups t :=
   evalE_good t q false
+
+/-- **Every query text either compiles or is rejected with a parse error**: the parser has no other way
+to fail (every partial step of the Python code - the token index, the look-ahead - is an explicit check in
+the model; the model's own recursion bound is never reached).  Holds for the code before the repair too. -/
+theorem parse_total (s : Str) (lg : Bool) :
+    (∃ e, parseWith lg s = .ok e) ∨ (∃ err, parseWith lg s = .error err ∧ err ≠ .fuel) := by
+  cases h : parseWith lg s with
+  | ok e => exact Or.inl ⟨e, rfl⟩
+  | error err =>
+    refine Or.inr ⟨err, rfl, ?_⟩
+    rintro rfl
+    exact parseToks_not_fuel lg _ h
+
+/-- **Unbalanced grouping symbols are always rejected** (repaired code): if the symbols `( ) [ ] { }` of
+the text are not properly nested, the query does not compile. -/
+theorem unbalanced_rejected (s : Str) (h : ¬ Balanced (textBrs s)) :
+    ∃ err, parse s = .error err ∧ err ≠ .fuel := by
+  cases hp : parse s with
+  | error err =>
+    refine ⟨err, rfl, ?_⟩
+    rintro rfl
+    exact parseToks_not_fuel false _ hp
+  | ok e =>
+    exfalso
+    apply h
+    have := parseToks_balanced _ e hp
+    unfold tokenizeWith at this
+    have h2 := tokGo_brs (asciiFold s) false [] bufOK_nil
+    simp only [Bool.false_eq_true, if_false] at h2
+    rw [h2, asciiFold_brs] at this
+    exact this
+
+/-- conversely every compiled query has properly nested grouping symbols -/
+theorem compiled_balanced (s : Str) (e : Expr) (h : parse s = .ok e) : Balanced (textBrs s) := by
+  apply Decidable.byContradiction
+  intro hb
+  rcases unbalanced_rejected s hb with ⟨err, he, _⟩
+  rw [h] at he; cases he
+
+/-- **The code before the repair violates the clause**: a lone `)`, `]` or `}` compiled (the term branch of
+`_handle_grouping_op` wrapped any token into a search term), and so did the legacy token `]]`. -/
+theorem legacy_unbalanced_counterexample :
+    (parseWith true [')'] = .ok (.term [')'] .terms false) ∧ ¬ Balanced (textBrs [')'])) ∧
+    (parseWith true [']'] = .ok (.term [']'] .terms false) ∧ ¬ Balanced (textBrs [']'])) ∧
+    (parseWith true ['}'] = .ok (.term ['}'] .terms false) ∧ ¬ Balanced (textBrs ['}'])) ∧
+    (parseWith true [']', ']'] = .ok (.term [']', ']'] .terms false) ∧ ¬ Balanced (textBrs [']', ']'])) := by
+  decide
+
+/-! regression: the old witnesses are rejected by the repaired parser; well-formed queries still compile -/
+example : parse [')'] = .error .unexpected := by decide
+example : parse [']'] = .error .unexpected := by decide
+example : parse ['}'] = .error .unexpected := by decide
+example : parse ['&', '&'] = .error .unexpected := by decide
+example : parse [':'] = .error .unexpected := by decide
+example : parse ['~', '~'] = .error .unexpected := by decide
+example : parse ['[', '['] = .error .nextToken := by decide
+example : parse [']', ']'] = .error .unexpected := by decide
+example : parse ['a', ' ', ')'] = .error .trailing := by decide
+example : parse ['(', 'a'] = .error .missingParen := by decide
+example : parse [] = .error .nextToken := by decide
+example : parse ['[', '[', 'a', ']', ']'] = .ok (.desc (.desc (.term ['a'] .terms false))) := by decide
+example : parse ['R', 'e', 'd'] = .ok (.term ['r', 'e', 'd'] .terms false) := by decide
+example : parse ['"', 'R', 'e', 'd', '"'] = .ok (.term ['r', 'e', 'd'] .exact false) := by decide
+example : parse ['r', 'e', '*'] = .ok (.term ['r', 'e'] .pref false) := by decide
+example : parse ['{', 'a', ':', '~', 'b', '}'] = .error .negInExact := by decide
+example : parse ['~', '?'] = .error .negWildcard := by decide
+example : parse ['{', 'a', ',', 'b', ':', '}'] =
+    .ok (.exactNone (.and (.term ['a'] .terms false) (.term ['b'] .terms false))) := by decide
+example : parse ['a', '|', '|', 'b', '&', '&', '~', 'c'] =
+    .ok (.or (.term ['a'] .terms false) (.and (.term ['b'] .terms false) (.neg (.term ['c'] .terms false)))) := by
+  decide
+
+/-- `(A, B), C, D` with unique ids -/
+def demoTree : Tree :=
+  ⟨0, [.group 1 true [.tag ⟨2, ['A'], ['a'], ['a'], [['a']]⟩, .tag ⟨3, ['B'], ['b'], ['b'], [['b']]⟩],
+       .tag ⟨4, ['C'], ['c'], ['c'], [['c']]⟩, .tag ⟨5, ['D'], ['d'], ['d'], [['d']]⟩]⟩
+
+/-! non-vacuity: the hypothesis of `and_assoc_partial` holds on `demoTree`, and `(a && c) && ??` matches it
+    (the three results sit on the top level: the group holding `A`, the tag `C`, the tag `D`);
+    `(Red),(Red)` is an annotation on which it does not hold -/
+example : NoEqualGroups demoTree := by unfold NoEqualGroups; decide
+example : isMatch (.and (.and (.term ['a'] .terms false) (.term ['c'] .terms false)) (.wild .tags)) demoTree = true := by
+  decide
+example : isMatch (.and (.term ['a'] .terms false) (.term ['a'] .terms false)) demoTree = false := by decide
+example : ¬ NoEqualGroups ⟨0, [.group 1 true [.tag ⟨2, ['R'], ['r'], ['r'], []⟩],
+                               .group 3 true [.tag ⟨4, ['R'], ['r'], ['r'], []⟩]]⟩ := by
+  unfold NoEqualGroups; decide
 
 end HedVerif.C15
